@@ -33,7 +33,9 @@ void ideal_mac_tag(uint8_t out[16], const uint8_t *data, size_t len, const uint8
 #ifndef IDEAL_MACBUF
 # define IDEAL_MACBUF 256
 #endif
-#define IDEAL_MAXMAC 6
+#ifndef IDEAL_MAXMAC
+# define IDEAL_MAXMAC 16
+#endif
 struct ideal_mac_log {
     uint8_t key[32];
     uint8_t data[IDEAL_MACBUF];
